@@ -20,7 +20,10 @@ fn usage() -> ! {
 fn main() {
     // Panics of the subject are caught per execution and reported as violations; keep stderr quiet
     // but remember the location for the message.
-    std::panic::set_hook(Box::new(|_info| {}));
+    std::panic::set_hook(Box::new(|info| {
+        let loc = info.location().map(|l| format!("{}:{}", l.file(), l.line())).unwrap_or_default();
+        explore::LAST_PANIC_LOCATION.with(|c| *c.borrow_mut() = loc);
+    }));
     // anyhow captures a backtrace per error when backtraces are enabled; that costs ~50 us per
     // rejected input and changes nothing we observe.
     std::env::set_var("RUST_LIB_BACKTRACE", "0");
